@@ -23,6 +23,7 @@ def run(ctx):
     ctx.use_program(prog)
     check_dispatch(ctx, prog)
     check_stop(ctx, prog)
+    check_active(ctx, prog)
     check_join(ctx, prog, 'C14')
     check_close(ctx, prog)
     fixture = os.path.join(ir.VERIF, 'fixtures', 'selfdelete_bad.cpp')
@@ -142,6 +143,53 @@ def check_dispatch(ctx, prog):
               'the handler thread performs %s (S=serve, C=close, D=decrement, I=increment) instead of exactly serve, close, decrement' % (order or 'nothing'))
     ctx.check(bool(dec_pos) and not after, 'C14.dispatch', g['pq'], 'handler:decrement is the last access to the server', fwhere(g), 'no use of _server after the decrement',
               'the handler touches the server object after decrementing the in-flight counter: stop(true) may already have returned and the server been destroyed')
+
+
+def check_active(ctx, prog):
+    """C14.active: the accept loop calls the (blocking) accept() only on a socket that the last waitInput() reported readable:
+    the receiver is `_sockets.activeAt(i)` (an element of the `changed` list), or the call is guarded by a predicate on the
+    socket set whose body consults that list.  accept() on an idle listening socket blocks the loop: connections on the
+    other endpoints are no longer served and a stop request is never seen."""
+    f = fn1(prog, 'asl::SocketServer::startLoop')
+    G = q.Guarded(f)
+    accepts = [e for e in fn_exprs(f) if e.get('k') == 'call' and (e.get('pq') or '').endswith('::accept')]
+    if not accepts:
+        raise AnalysisBroken('accept() not found in startLoop')
+    # which member of Sockets does waitInput() fill with the readable sockets?
+    wi = fn1(prog, 'asl::Sockets::waitInput')
+    filled = set(strip_lv(e.get('obj') or {}).get('f') for e in fn_exprs(wi) if e.get('k') == 'call' and e.get('op') == '<<' and strip_lv(e.get('obj') or {}).get('k') == 'mem')
+    filled.discard(None)
+    def consults_active(g, depth=0):
+        return any(w.get('k') == 'mem' and w.get('f') in filled for w in fn_exprs(g))
+    for e in accepts:
+        role = 'startLoop:accept() only on a socket reported readable'
+        recv = strip(q.expand(f, e.get('obj') or {}))
+        while recv.get('k') in ('cast', 'temp'):
+            recv = strip(recv['e'])
+        ok = None
+        why = ''
+        if recv.get('k') == 'call':
+            cands = [g for g in prog.fn(recv.get('fn'), recv.get('sig')) if g.get('body')]
+            if cands and consults_active(cands[0]):
+                ok, why = True, 'receiver is %s(..), an element of the list waitInput() filled' % recv['fn'].split('::')[-1]
+        if ok is None:
+            for c, pol, kind in G.of(e):
+                if not isinstance(c, dict):
+                    continue
+                for w in walk_expr(q.expand(f, c, bools_only=True)):
+                    if w.get('k') == 'call' and (w.get('clsp') or '').endswith('Sockets') and w.get('a') and 'Socket' in (T(f, strip_lv(w['a'][0]).get('t')).get('s') or ''):
+                        cands = [g for g in prog.fn(w.get('fn'), w.get('sig')) if g.get('body')]
+                        if cands and consults_active(cands[0]):
+                            ok, why = True, 'guarded by %s(..), which consults the list waitInput() filled' % w['fn'].split('::')[-1]
+                        elif cands and ok is None:
+                            ok, why = False, 'the guard %s(..) does not consult the list of sockets waitInput() reported (%s)' % (w['fn'].split('::')[-1], sorted(filled))
+        ctx.evaluations += 1
+        if ok is None:
+            ok, why = False, 'the receiver `%s` is not taken from the sockets waitInput() reported' % pe(e.get('obj') or {})
+        if not filled:
+            ctx.undecided('C14.active', f['pq'], role, fwhere(f, e.get('l')), 'the list filled by Sockets::waitInput was not identified')
+        else:
+            ctx.check(ok, 'C14.active', f['pq'], role, fwhere(f, e.get('l')), why, 'accept() can be called on an idle listening socket: %s; the blocking accept stalls the loop (other endpoints unserved, stop(true) never returns)' % why)
 
 
 def check_stop(ctx, prog):
